@@ -189,6 +189,34 @@ def run(ctx):
             ok = isinstance(par, ast.Call) and a.p.resolve_expr(entry.mod, par.func) == ("class", dec)
             ctx.check("C01.R5", "schemaless_reader wraps fo in BinaryDecoder only", ok, entry.where(n), f"schemaless_reader: {norm(par)}", "the input stream is used directly by schemaless_reader")
 
+    # ---- R14 the int / long writers refuse no value of the type ------------------------------------------------------
+    ctx.rule("C01.R14", "the writers of int and long raise for no value inside the type's range (evaluated on the boundary values with the rule's own evaluator; nothing is run)", floor=2)
+    from sa import guards as _g
+
+    for kind, (lo, hi) in (("int", (-2 ** 31, 2 ** 31 - 1)), ("long", (-2 ** 63, 2 ** 63 - 1))):
+        for f in a.writers.funcs(kind):
+            if len(f.pos_params) < 2:
+                ctx.unrecognised("C01.R14", f"{f.qualname}", f.where(), "the writer does not take (encoder, datum, ..)")
+                continue
+            raises = [n for n in walk_local(f.node) if isinstance(n, ast.Raise)]
+            if not raises:
+                ctx.holds("C01.R14", f"{f.qualname} ({kind}): raises nothing of its own", f.where())
+                continue
+            D = f.pos_params[1]
+            for rep in sorted({lo, lo + 1, -1, 0, 1, hi - 1, hi} if kind == "int" else {lo, lo + 1, -2 ** 31 - 1, -1, 0, 1, 2 ** 31, hi - 1, hi}):
+                env = {D: rep}
+                for pn in f.pos_params[2:]:
+                    if pn == "fname" or pn.endswith("name"):
+                        env[pn] = ""
+                r = _g.run_chain([st for st in f.node.body], env, effects=[])
+                inst = f"{f.qualname} ({kind}): {rep} is written"
+                if r[0] == "raise":
+                    ctx.violation("C01.R14", inst, f.where(r[1]), f"{f.qualname}: `{norm(r[1])[:70]}` is reached for datum = {rep}", f"{rep} is a legal {kind} (the range is [{lo}, {hi}], both ends included): a datum that conforms to the schema cannot be encoded")
+                elif r[0] == "unknown":
+                    ctx.unrecognised("C01.R14", inst, f.where(), f"`{norm(r[1])[:80]}` could not be evaluated for datum = {rep}")
+                else:
+                    ctx.holds("C01.R14", inst, f.where())
+
     # ---- shared: what is encoded is the datum's own value under the branch / length / index the reader decodes ----
     ctx.borrow("C16", {"C16.R4": "C01.R10", "C16.R5": "C01.R11", "C16.R6": "C01.R12"}, "values of logical types are data like any other: a preparer that stores a different number (rounded to the decimal context, truncated to the fixed size) breaks the round trip of the datum")
     ctx.borrow("C09", {"C09.R3": "C01.R13"}, "a datum that conforms to a union must be encodable: the search has to be able to select every conforming branch (record branches that share no field name with the datum included), in schema order")
